@@ -4,6 +4,13 @@ Import ListNotations.
 Require Export MV.C08.Model MV.C07.Model MV.C07.Spec.
 Open Scope N_scope.
 
+(* code points are transmitted as 3 bytes each: cps (hx "00006100000a") = [97; 10] *)
+Fixpoint cps (l : list N) : list N :=
+  match l with
+  | a :: b :: c :: r => (a * 65536 + b * 256 + c) :: cps r
+  | _ => []
+  end.
+
 Definition case := (cfg * list op)%type.
 Definition OUT := list (list asample).
 Definition run_case (c : case) : OUT := snd (run (fst c) init (snd c)).
